@@ -526,7 +526,7 @@ package rockredis
 
 // a store as the apply loop hands it to a command: opened, and the shared write batch is empty
 // (ApplyRaftRequest commits or aborts the batch before every non-batchable command)
-//@ spec dbReady(db *RockDB) bool = db != nil && db.wb != nil && db.indexMgr != nil && db.rockEng != nil && ghost(wbputs, db.wb) == 0 && ghost(wbdels, db.wb) == 0 && ghost(kvlen, db) >= 0
+//@ spec dbReady(db *RockDB) bool = db != nil && db.wb != nil && db.indexMgr != nil && db.rockEng != nil && db.cfg != nil && db.expiration != nil && ghost(wbputs, db.wb) == 0 && ghost(wbdels, db.wb) == 0 && ghost(kvlen, db) >= 0
 
 // ---- string (KV) read-modify-write commands ----
 // ghost(kvexpired, db) / ghost(kvlen, db): whether the stored value of the key being written is expired (at the
